@@ -242,7 +242,8 @@ func (dao *Simple) GetTokenTransferLog(acc util.Uint160, newestTimestamp uint64,
 		}
 		return nil, err
 	}
-	return &state.TokenTransferLog{Raw: value}, nil
+	// The log is appended to in place, it must not share memory with the stored value.
+	return &state.TokenTransferLog{Raw: bytes.Clone(value)}, nil
 }
 
 // PutTokenTransferLog saves the given transfer log in the cache.
